@@ -338,6 +338,9 @@ Within(g, o) ==
     [] o.op = "add_topic"     -> o.a \notin g.T /\ Card(g.T) < g.lim.topics
     [] o.op = "add_issuer"    -> /\ o.a \notin g.I /\ Card(g.I) < g.lim.issuers
                                  /\ o.xs # <<>> /\ NoDup(o.xs) /\ ToSet(o.xs) \subseteq g.T
+    \* (moving a registered issuer onto existing topics adds nothing to the registry: no limit can be in the way,
+    \* however long a topic's issuer list gets - it is bounded by the number of issuers)
+    [] o.op = "update_issuer" -> o.a \in g.I /\ o.xs # <<>> /\ NoDup(o.xs) /\ ToSet(o.xs) \subseteq g.T
     [] o.op = "bind"          -> o.a \notin g.S /\ Card(g.S) < g.lim.max
     [] o.op = "bind_batch"    -> /\ o.xs # <<>> /\ NoDup(o.xs) /\ ToSet(o.xs) \cap g.S = {}
                                  /\ Len(o.xs) <= g.lim.batch /\ Card(g.S) + Len(o.xs) <= g.lim.max
